@@ -124,3 +124,19 @@ Example ex_default_call : match average_default (repeat (repeat [smp 1 1 false] 
                           | Some r => List.length r = 1 /\ List.length (nth 0 r []) = 1
                           | None => False end.
 Proof. vm_compute. auto. Qed.
+
+(* ------------------------------------------------------------------ v3: second-stage index *)
+(* 3 dumps x 2 channels x 1 product, weights 1..6, per-channel weights 10, 20 / 30, 40 / 50, 60 *)
+Definition ex3_w : Weights.arr3 Ext := [[[Fin (q 1 1)]; [Fin (q 2 1)]]; [[Fin (q 3 1)]; [Fin (q 4 1)]]; [[Fin (q 5 1)]; [Fin (q 6 1)]]].
+Definition ex3_wc : list (list Ext) := [[Fin (q 10 1); Fin (q 20 1)]; [Fin (q 30 1); Fin (q 40 1)]; [Fin (q 50 1); Fin (q 60 1)]].
+(* d.weights[[0, 2], [0, 1]]: the 2 x 2 block of products 10, 40 / 250, 360 *)
+Example ex_v3_outer : of_arr3 of_Ext (v3_weights_indexed true true true ex3_w ex3_wc [0; 2] [0; 1] [0]) =
+  L [L [L [L [I 10; I 1]]; L [L [I 40; I 1]]]; L [L [L [I 250; I 1]]; L [L [I 360; I 1]]]].
+Proof. vm_compute. reflexivity. Qed.
+(* numpy's pairwise rule on a preloaded weights_channel (one value per PAIR (0, 0), (2, 1)) gets the off-diagonal
+   elements wrong: 2 * 60 instead of 2 * 20, 5 * 10 instead of 5 * 50 *)
+Example ex_v3_vectorised_differs :
+  of_arr3 of_Ext (v3_weights_vectorised true true true ex3_w ex3_wc [0; 2] [0; 1] [0]) =
+  L [L [L [L [I 10; I 1]]; L [L [I 120; I 1]]]; L [L [L [I 50; I 1]]; L [L [I 360; I 1]]]] /\
+  v3_weights_vectorised true true true ex3_w ex3_wc [0; 2] [0; 1] [0] <> v3_weights_indexed true true true ex3_w ex3_wc [0; 2] [0; 1] [0].
+Proof. split; [vm_compute; reflexivity | vm_compute; discriminate]. Qed.
